@@ -54,6 +54,8 @@ CONSTANTS
     CompactRevs,          \* revisions a compaction request may name
     MaxCompacts,          \* compaction requests per compactor
     DelFaults,            \* SUBSET {"err","cas","die"}: faults of compaction deletes
+    RecordDetail,         \* TRUE (needs CompactDetail): reading and raising the compaction record are separate steps
+                          \*       (CRecGet / CRecCas in backend.setCompactRecord, CScanGet / CScanPut in scanner.checkCompactRace)
     CompactDetail,        \* TRUE: the compactor takes one step per engine deletion (CStart / CIter / CDel);
                           \*       FALSE: one request is one atomic step (CompactReq)
     LateCompact,          \* generator bias: compaction requests only arrive once every writer has returned (they then race
@@ -136,7 +138,7 @@ WLocInit == [rev |-> 0, mod |-> 0, oldval |-> "-", old |-> NoIdx, res |-> "none"
 WatchReqSet == [start : WatchStarts, prefix : WatchPrefixes]
 XLocInit == [last |-> 0, res |-> "none", find |-> "none", evs |-> << >>, newest |-> 0, listed |-> FALSE, lrev |-> 0, lsnap |-> << >>]
 RdLocInit == [rev |-> 0, hdr |-> 0, seen |-> 0, fl0 |-> 0, n |-> 0, snapI |-> << >>, snapV |-> << >>]
-CLocInit == [rev |-> 0, todo |-> << >>, sidx |-> [k \in Keys |-> NoIdx], skip |-> 0, dead |-> FALSE, snapI |-> << >>, snapV |-> << >>]
+CLocInit == [seen |-> 0, rev |-> 0, todo |-> << >>, sidx |-> [k \in Keys |-> NoIdx], skip |-> 0, dead |-> FALSE, snapI |-> << >>, snapV |-> << >>]
 SubInit  == [reg |-> FALSE, closed |-> FALSE, buf |-> << >>, hand |-> << >>, hasHand |-> FALSE]
 
 Init ==
@@ -747,15 +749,47 @@ CStart(c) ==
     /\ CompactDetail /\ ~fin /\ cpc[c] = "idle" /\ cn[c] < MaxCompacts
     /\ \E req \in CompactRevs :
          LET R == ClampRev(req) IN
-         /\ floor' = IF R > floor THEN R ELSE floor
+         /\ floor' = IF RecordDetail THEN floor ELSE IF R > floor THEN R ELSE floor
          /\ creq' = [creq EXCEPT ![c] = R]
          \* (the engine timestamp is fetched here: an engine whose iterators read the snapshot of that
          \*  timestamp -- TiKV -- fixes what the worker will see now, the others when the iterator is opened)
          /\ cloc' = [cloc EXCEPT ![c] = [CLocInit EXCEPT !.rev = R, !.snapI = IF SnapAtTs THEN idx ELSE << >>,
                                                           !.snapV = IF SnapAtTs THEN ver ELSE << >>]]
          /\ HF(c, "CStart", "start", "", req)
-    /\ cpc' = [cpc EXCEPT ![c] = "c_iter"]
+    /\ cpc' = [cpc EXCEPT ![c] = IF RecordDetail THEN "c_rget" ELSE "c_iter"]
     /\ UNCHANGED <<idx, ver, wloc, faults, cn, CUnch>>
+
+\* ---- the compaction record, step by step (RecordDetail)                 compact.go:70-105, scanner.go:612-630
+CRUnch == <<idx, ver, wloc, faults, creq, CUnch>>
+\* backend.setCompactRecord reads the record; a record that is already higher is left alone             gate: kv.get
+CRecGet(c) ==
+    /\ cpc[c] = "c_rget"
+    /\ cloc' = [cloc EXCEPT ![c].seen = floor]
+    /\ cpc' = [cpc EXCEPT ![c] = IF floor > cloc[c].rev THEN "c_sget" ELSE "c_rcas"]
+    /\ H(c, "CRecGet", "kv.get")
+    /\ UNCHANGED <<floor, cn, CRUnch>>
+\* ... and raises it by put-if-absent / compare-and-swap against what it read; a lost compare ends the request   gate: kv.commit
+CRecCas(c) ==
+    /\ cpc[c] = "c_rcas"
+    /\ IF floor = cloc[c].seen
+       THEN /\ floor' = cloc[c].rev /\ cpc' = [cpc EXCEPT ![c] = "c_sget"] /\ cn' = cn
+       ELSE /\ floor' = floor /\ cpc' = [cpc EXCEPT ![c] = "idle"] /\ cn' = [cn EXCEPT ![c] = @ + 1]
+    /\ H(c, "CRecCas", "kv.commit")
+    /\ UNCHANGED <<cloc, CRUnch>>
+\* the scanner reads the record again (after fetching the engine timestamp)                                gate: kv.get
+CScanGet(c) ==
+    /\ cpc[c] = "c_sget"
+    /\ cpc' = [cpc EXCEPT ![c] = IF floor >= cloc[c].rev THEN "c_iter" ELSE "c_sput"]
+    /\ cloc' = [cloc EXCEPT ![c].snapI = IF SnapAtTs THEN idx ELSE << >>, ![c].snapV = IF SnapAtTs THEN ver ELSE << >>]
+    /\ H(c, "CScanGet", "kv.get")
+    /\ UNCHANGED <<floor, cn, CRUnch>>
+\* ... and, finding it lower than its own revision, writes it unconditionally                                gate: kv.commit
+CScanPut(c) ==
+    /\ cpc[c] = "c_sput"
+    /\ floor' = cloc[c].rev
+    /\ cpc' = [cpc EXCEPT ![c] = "c_iter"]
+    /\ H(c, "CScanPut", "kv.commit")
+    /\ UNCHANGED <<cloc, cn, CRUnch>>
 
 \* the worker opens its iterator: the engine hands it a snapshot; everything it will delete is
 \* decided by that snapshot (Scanner!WorkerRun)                                  gate: kv.iter
@@ -793,7 +827,7 @@ CDel(c) ==
          /\ HF(c, "CDel", IF d.op = "del" THEN "kv.del" ELSE "kv.delcur", a, 0)
     /\ UNCHANGED <<floor, creq, CUnch>>
 
-CompactorNext(c) == CompactReq(c) \/ CStart(c) \/ CIter(c) \/ CDel(c)
+CompactorNext(c) == CompactReq(c) \/ CStart(c) \/ CRecGet(c) \/ CRecCas(c) \/ CScanGet(c) \/ CScanPut(c) \/ CIter(c) \/ CDel(c)
 CompactorsIdle == \A c \in Compactors : cpc[c] = "idle"
 
 Quiescent == CompactorsIdle /\ ReadersIdle /\ WritersDone /\ SeqIdle /\ retryQ = << >> /\ rpc = "idle"
@@ -901,6 +935,9 @@ CompactClamp == \A i \in 1..Len(retryQ) : floor < retryQ[i].rev
 \* and therefore never removes what the repair has to read: the newest version of a queued key
 RepairStillPossible == \A i \in 1..Len(retryQ) : LET e == retryQ[i] IN
                           (\E v \in hver[e.key] : v.rev = e.rev) => (\E v \in ver[e.key] : v.rev = e.rev)
+
+\* ---- C08 under concurrency: whatever compaction requests overlap, the record only rises
+FloorNeverLowered == [][floor' >= floor]_vars
 
 \* ---- C07 under concurrency: whatever the compactor has deleted so far, every read at or above the
 \* floor sees what the full history prescribes, and every key stays writable
